@@ -256,7 +256,7 @@ type AuthCase struct {
 	Expiry   string `json:"expiry"` // none, past, future
 	Target   string `json:"target"`
 	Request  string `json:"request"`
-	Ban      string `json:"ban"` // no, banned, unbanned (banned then unbanned)
+	Ban      string `json:"ban"`     // no, banned, unbanned (banned then unbanned)
 	Garbage  int    `json:"garbage"` // 0 real key, 1/4 one character changed to one outside the alphabet, 2 wrong length, 3 standard-base64 respelling
 	Salt     uint16 `json:"salt"`
 }
@@ -321,8 +321,8 @@ func (m *multi) Get(id uint32) (contract.Contract, bool) {
 
 type env struct {
 	b      *vkit.Broker
-	other  license.License // second, known contract (same cipher)
-	unk    license.License // contract nobody knows
+	other  license.License            // second, known contract (same cipher)
+	unk    license.License            // contract nobody knows
 	http   map[string]license.License // contracts served by the HTTP contract provider, by state
 	banned map[string]bool
 }
